@@ -62,4 +62,14 @@ SPECS = {
         "info_meaning": "[cases inside the builder model; cases fully judged by decode = interp]",
         "assumptions": ["AddrOk: two &'static str with equal address and length have equal content (Rust statics)"],
     },
+    "C02": {
+        "id": "C02", "runners": ["RunC02"],
+        "info_meaning": "[single-row reads judged against present(decode view)[i]]",
+        "assumptions": ["valid views are windows (Arrow slice layout) of arrays produced by the writer and arrow-rs built/sliced arrays; hand-corrupted views are C17", "reads go through deserialize_any (self-describing) with a recording probe; typed requests are covered by C04/C05"],
+    },
+    "C12": {
+        "id": "C12", "runners": ["RunC02"],
+        "info_meaning": "[single-row reads judged against present(decode view)[i]]",
+        "assumptions": ["slice_view in the harness mirrors the layout of arrow-rs slices converted by marrow; the layouts are compared on every arrow-rs slice of the run (distribution key arrow_slice_layout)"],
+    },
 }
